@@ -20,7 +20,9 @@ LEVEL = "exploration"
 TECHNIQUE = "runtime monitoring: exact feasibility/finiteness invariant at every hook-observed stopping point and at budget-aligned API returns"
 LEVEL_TEXT = ("Solvers and estimators with positivity / box constraints are run with every intermediate iterate observed "
               "through guarded hooks and with budgets that end exactly on extrapolation steps; every observed or "
-              "returned coefficient vector must be exactly feasible and every returned number finite.")
+              "returned coefficient vector must be exactly feasible and every returned number finite. Coordinate-prox "
+              "solvers are also started from infeasible points (with null columns / groups) and must return feasible ones "
+              "after one epoch.")
 LEVEL_NOTE = "exact comparisons (w >= 0, 0 <= w <= C); hooks give copies of the iterates; problems n<=40, p<=20"
 RULE = ("cases = (solver|estimator, datafit, constraint penalty, storage, intercept, strategy, warm start, budgets); "
         "non-trivial = at least one observed iterate has a coefficient at a bound and one strictly inside; distinct = "
